@@ -199,6 +199,11 @@ func (i *Interpreter) Load(pathset string) error {
 }
 
 func (i *Interpreter) pushLoadedFragment(pathset string, units []parse.SourceUnit) error {
+	if _, loaded := i.sourceFragments[pathset]; loaded {
+		// Fragments are kept by path: a second fragment for the same path would replace the first one's
+		// checkpoints, and popping both would fail.
+		return fmt.Errorf("%s is already loaded", pathset)
+	}
 	programInfo, err := analysis.AnalyzeAndCheckBounds(units, i.knownPredicates, analysis.ErrorForBoundsMismatch)
 	if err != nil {
 		return err
